@@ -358,6 +358,14 @@ class RunningOrder(MosFile):
                 return (story.xml, i)
         raise ValueError("Story not found")
 
+    def merge(self, ro):
+        """
+        A ``roCreate`` cannot be merged into another running order.
+        """
+        raise MosMergeError(
+            f"{self.__class__.__name__} error in {self.message_id} - cannot merge a running order into a running order"
+        )
+
     def inspect(self):
         """
         Print an outline of the key file contents
